@@ -23,7 +23,7 @@ CHECKS = {
          "DESIGN.md §4 C16"),
  "C17": ("exploration",
          "runtime monitor: concrete-vs-erased differential over all 28 generated pointer flavours of the five erasable traits, with the default boxed error type and the identity error conversion; preceded by rustc's accept/reject verdict on a generated probe crate with one function per (trait x pointer x auto-trait) flavour",
-         "a DynWeighted list with a single erased member must behave like the member where the outcome is stream-independent; lists nested in lists (depth 1-3) must deliver the innermost failure wrapped exactly once per level; rustc must accept all 140 generated functions that require a flavour to implement the wrapped trait (a rejected one is C17/flavour-not-supported). Every round makes 280 erased calls (5 traits x 28 flavours x 2 error conversions) around run-time chosen real implementations and succeeding/failing probes and compares value (selectors: element identity), error Display text and source chain, random-stream fingerprint and wrapped-call count with the concrete call; 4e4 (quick) / 1e6 (thorough) rounds. The (trait x flavour) grid is exhaustive in every round.",
+         "a DynWeighted list with a single erased member must behave like the member where the outcome is stream-independent; lists nested in lists (depth 1-3) must deliver the innermost failure wrapped exactly once per level; rustc must accept all 280 generated functions (28 pointer flavours x 5 traits x the default and a user-defined error type) that require a flavour to implement the wrapped trait (a rejected one is C17/flavour-not-supported). Every round makes 280 erased calls (5 traits x 28 flavours x 2 error conversions) around run-time chosen real implementations and succeeding/failing probes and compares value (selectors: element identity), error Display text and source chain, random-stream fingerprint and wrapped-call count with the concrete call; 4e4 (quick) / 1e6 (thorough) rounds. The (trait x flavour) grid is exhaustive in every round.",
          "Values are compared through Debug renderings. The flavour-existence half is decided by observing the compiler (as the C19 compile-time clause).",
          "DESIGN.md §4 C17"),
  "C18": ("exploration",
